@@ -166,6 +166,18 @@ CLAIMS["C16"] = dict(
     technique="contract-based deductive verification: class contract (operand contract -> composite contract) on the real classes with symbolic leaf values, VCs to z3",
     note=TRUST + " Mixing 2-d and 3-d parameters in one expression is outside the property (z is passed to every operand). pickle/cloudpickle/numpy are the real libraries.")
 
+CLAIMS["C14"] = dict(
+    category="proof",
+    text="Round-trip contracts of the real save/load code over an abstract HDF5 store with symbolic contents: every SolverOptions field incl. None-valued "
+         "ones through Solution._save_to_hdf5_file / Solution.from_hdf5; Solution(_solve_step=k) and load_tdgl_data for symbolic k (0, negative, positive); "
+         "Layer for every presence pattern of conductivity; EdgeMesh, Mesh (full, compressed, restorable test, voronoi split-back) and DynamicsData with "
+         "opaque symbolic arrays; CompositeParameter pickling keeps attributes, structure and value for all operator x operand-kind combinations (C16 unit). "
+         "Polygon / Device (shapely) round trips, TDGLData per recorded step and 'restored mesh equals recomputed mesh' are covered only by the bounded native run "
+         "(real h5py). One defect repaired by a fix: commit.",
+    design_ref="DESIGN.md section 4 C14",
+    technique="contract-based deductive verification: round-trip postconditions of the real to_hdf5/from_hdf5 pairs over an abstract store; bounded native run for shapely/h5py",
+    note=TRUST + " h5py replaced by an abstract store (assumed contract).")
+
 NA = {}
 
 checks = []
